@@ -82,6 +82,10 @@ func (rr *SIG) Verify(k *KEY, buf []byte) error {
 	if rr.KeyTag == 0 || rr.SignerName == "" || rr.Algorithm == 0 {
 		return ErrKey
 	}
+	// The key has to be the one the signature names (RFC 2931 3.1).
+	if rr.KeyTag != k.KeyTag() || rr.Algorithm != k.Algorithm {
+		return ErrKey
+	}
 
 	h, cryptohash, err := hashFromAlgorithm(rr.Algorithm)
 	if err != nil {
